@@ -205,7 +205,7 @@ func (a *ProbeApp) Start() error {
 			logEv("f", a.cid, a.n, 0)
 			return fmt.Errorf("listening on %s: %v", addr, err)
 		}
-		ln := lnAny.(net.Listener)
+		ln := &onceListener{Listener: lnAny.(net.Listener)}
 		srv := &http.Server{Handler: http.HandlerFunc(func(w http.ResponseWriter, _ *http.Request) {
 			w.Header().Set("Connection", "close")
 			_, _ = io.WriteString(w, body)
@@ -222,6 +222,19 @@ func (a *ProbeApp) Stop() error {
 	logEv("x", a.cid, a.n, 0)
 	a.closeAll()
 	return nil
+}
+
+// onceListener: caddy's pooled listeners count one release per Close call, so a listener must
+// be closed exactly once (net/http does the same with its onceCloseListener).
+type onceListener struct {
+	net.Listener
+	once sync.Once
+	err  error
+}
+
+func (l *onceListener) Close() error {
+	l.once.Do(func() { l.err = l.Listener.Close() })
+	return l.err
 }
 
 // ---------------------------------------------------------------- log writer
